@@ -274,7 +274,11 @@ def gen_net_acts(R, nseg, cfg, protect_first=False):
                     acts.append([i, "delay", R.range(1, cfg.get("_D", 4))])
                 elif kind == "early":
                     if i >= 2:
-                        acts.append([i, "early", R.range(2, min(i, cfg.get("_D", 4)))])
+                        k = R.range(2, min(i, cfg.get("_D", 4)))
+                        if protect_first and i - k <= 0:
+                            k = i - 1          # never overtakes the first segment of the direction
+                        if k >= 1:
+                            acts.append([i, "early", k])
                 elif kind == "lost_before":
                     acts.append([i, "lost_before"])
                 elif kind == "dup":
